@@ -1,6 +1,7 @@
 package props
 
 import (
+	"bytes"
 	"errors"
 	"fmt"
 	"strings"
@@ -25,6 +26,8 @@ type c15Case struct {
 	EnumIDs bool       `json:"enumAsIds"`
 	Qual    bool       `json:"qualify"`
 	FailAt  int        `json:"failAt"` // >= 0: the output stream fails once this many bytes were accepted
+	// Reused: "" | "after-success" | "after-failure": the document examined is the second one a JSONWtr value writes
+	Reused string `json:"reused,omitempty"`
 }
 
 type failingWriter struct {
@@ -135,7 +138,32 @@ func c15Run(c c15Case, o *hx.Obs) {
 			wtr.Out = out
 			return "", sel.InsertInto(wtr.Node())
 		}
+		if c.Reused != "" {
+			// one JSONWtr value serves a second document (after a first one that went well, or one whose stream
+			// failed): Node() is asked for again with Out pointed at a new buffer; the second document is examined
+			var first, second bytes.Buffer
+			wtr.Out = &first
+			if c.Reused == "after-failure" {
+				wtr.Out = &failingWriter{limit: 3}
+			}
+			ferr := sel.InsertInto(wtr.Node())
+			if ferr != nil && c.Reused != "after-failure" {
+				return "", ferr
+			}
+			wtr.Out = &second
+			sel2 := node.NewBrowser(mm, dm.NewRS(root, dm.CloneTree(c.Data))).Root()
+			if path != "" {
+				if sel2, ferr = sel2.Find(path); ferr != nil || sel2 == nil {
+					return "", fmt.Errorf("start selection %q not found: %v", path, ferr)
+				}
+			}
+			err := sel2.InsertInto(wtr.Node())
+			return second.String(), err
+		}
 		return wtr.JSON(sel)
+	}
+	if c.Reused != "" {
+		o.Class("one JSONWtr value reused for a second document (%s)", c.Reused)
 	}
 	var text string
 	var werr error
@@ -253,6 +281,8 @@ func c15Gen(faults bool) func(t *rapid.T) c15Case {
 		}
 		if faults {
 			c.FailAt = rapid.IntRange(0, 5000).Draw(t, "failAt")
+		} else {
+			c.Reused = rapid.SampledFrom([]string{"", "", "", "after-success", "after-failure"}).Draw(t, "reused")
 		}
 		return c
 	}
